@@ -52,6 +52,15 @@ Proof. apply run_cmds_good; [reflexivity|constructor; [exact good_empty|construc
 Example ex_contains : exists h, nth_error (snd (run_cmds ex_prog [empty_h])) 0 = Some h /\ contains [97] h = true
   /\ forallb pair_valid (get_all h) = true.
 Proof. eexists. split; [vm_compute; reflexivity|split; vm_compute; reflexivity]. Qed.
+Example ex_mixins :
+  fst (run_cmds [FromPairs [([97], [49]); ([65], [50]); ([98], [51])]; On 1 (Add [97] [52]); On 1 Items;
+                 On 1 (Pop [66]); On 1 (SetDefault [66] [53]); On 1 (GetD [122]); On 1 Len; Copy 1; Eq 1 2;
+                 On 2 (Update [([99], [54])]); Eq 1 2] [empty_h])
+  = [RUnit; RUnit; RPairs [([65], [50; 44; 52]); ([66], [51])]; RText [51]; RText [53]; RUnit; RNat 2; RUnit;
+     RBool true; RUnit; RBool false].
+Proof. vm_compute. reflexivity. Qed.
+Example ex_untouched : ~ touches (Eq 1 2) 0 /\ ~ touches (Copy 0) 0 /\ ~ touches (On 1 Items) 0.
+Proof. split; [|split]; simpl; [intros [H|H]; discriminate|tauto|discriminate]. Qed.
 Example ex_ci : map lower [88; 45; 121] = map lower [120; 45; 89].
 Proof. reflexivity. Qed.
 Example ex_token_value : is_token [88; 45; 121] = true /\ is_field_value [118; 32; 119] = true.
